@@ -9,10 +9,10 @@
 (*          to EOF), rec (recursive Iter);                                 *)
 (*          got  = the caching bucket's answer,                            *)
 (*          want = the underlying bucket's answer to the same call,        *)
-(*          both [kind, n, sha, data, val, names, msg]:                    *)
+(*          both [kind, n, sha, data, val, names (, msg)]:                 *)
 (*            kind  data | notfound | error | bool | attrs | names | panic *)
 (*            n     number of bytes read, sha a digest of them, data the   *)
-(*                  bytes themselves when n <= 48 (else <<>>)              *)
+(*                  bytes themselves when n <= 32 (else <<>>)              *)
 (*            val   Exists answer / size@mtime of Attributes, as a string  *)
 (*            names the listing, in callback order                         *)
 (*          size, S, M, hit (cached subrange starts of the object before   *)
